@@ -541,6 +541,12 @@ def int_from_bytes(data, byteorder="big", *, signed=False):
 def seq_items(x):
     if isinstance(x, SymSeq):
         return x.items()
+    if isinstance(x, SymBlob):
+        if all(s[0] == "lit" for s in x.segs):
+            return [i for s in x.segs for i in s[1]]
+        from .engine import Unsupported
+
+        raise Unsupported("octets of an opaque byte string of symbolic length requested")
     if isinstance(x, (bytes, bytearray, memoryview)):
         return list(bytes(x))
     if isinstance(x, (list, tuple)):
@@ -549,7 +555,7 @@ def seq_items(x):
 
 
 def is_byteslike(x):
-    return isinstance(x, (bytes, bytearray, memoryview, SymSeq))
+    return isinstance(x, (bytes, bytearray, memoryview, SymSeq, SymBlob))
 
 
 class SymSeq:
@@ -597,6 +603,8 @@ class SymSeq:
     def __eq__(self, o):
         if not is_byteslike(o):
             return False
+        if isinstance(o, SymBlob):
+            return o.__eq__(self)
         a, b = self.items(), seq_items(o)
         if len(a) != len(b):
             return False
@@ -662,12 +670,12 @@ class SymBytes(SymSeq):
         return self._items[self._index(key)]
 
     def __add__(self, o):
-        if not is_byteslike(o):
+        if not is_byteslike(o) or isinstance(o, SymBlob):
             return NotImplemented
         return SymBytes(self._items + seq_items(o)).norm()
 
     def __radd__(self, o):
-        if not is_byteslike(o):
+        if not is_byteslike(o) or isinstance(o, SymBlob):
             return NotImplemented
         return SymBytes(seq_items(o) + self._items).norm()
 
@@ -738,10 +746,14 @@ class SymByteArray(SymSeq):
         self._items.reverse()
 
     def __iadd__(self, o):
+        if isinstance(o, SymBlob):
+            return SymBlob([("lit", self._items)] + o.segs, "bytearray")
         self._items.extend(seq_items(o))
         return self
 
     def __add__(self, o):
+        if isinstance(o, SymBlob):
+            return NotImplemented
         return SymByteArray(self._items + seq_items(o))
 
     def __radd__(self, o):
@@ -1312,3 +1324,265 @@ class SymDict:
     def update(self, other):
         for k, v in (other.items() if hasattr(other, "items") else other):
             self[k] = v
+
+
+# ---------------------------------------------------------------- byte strings of symbolic LENGTH
+
+
+class SymBlob:
+    """A byte string whose *length* may be a solver variable: a list of segments
+        ("lit", [items])            concrete number of octets (ints / SymInt 0..255)
+        ("opq", ident, off, n)      n octets (n: int | SymInt >= 0) of the opaque content `ident`, starting at its offset `off`
+    The content of an opaque segment is never inspected; it can be moved, sliced at solver-decided positions, compared for identity.
+    This is what lets length arithmetic (padding, alignment, length fields, offsets) be decided for *every* length in a range."""
+
+    kind = "bytes"
+
+    def __init__(self, segs, kind="bytes"):
+        out = []
+        for s in segs:
+            if s[0] == "lit":
+                if not s[1]:
+                    continue
+                if out and out[-1][0] == "lit":
+                    out[-1] = ("lit", out[-1][1] + list(s[1]))
+                else:
+                    out.append(("lit", list(s[1])))
+            else:
+                n = s[3]
+                if isinstance(n, int) and n == 0:
+                    continue
+                # merge adjacent pieces of the same opaque content
+                if out and out[-1][0] == "opq" and out[-1][1] == s[1] and _t((out[-1][2] + out[-1][3]) == s[2]):
+                    out[-1] = ("opq", s[1], out[-1][2], out[-1][3] + n)
+                else:
+                    out.append(s)
+        self.segs = out
+        self.kind = kind
+
+    # -- construction
+    @staticmethod
+    def opaque(ident, length):
+        return SymBlob([("opq", ident, 0, length)])
+
+    @staticmethod
+    def of(x):
+        if isinstance(x, SymBlob):
+            return x
+        return SymBlob([("lit", seq_items(x))])
+
+    def seglen(self, s):
+        return len(s[1]) if s[0] == "lit" else s[3]
+
+    def sym_len(self):
+        total = 0
+        for s in self.segs:
+            total = total + self.seglen(s)
+        return total
+
+    def __len__(self):
+        n = self.sym_len()
+        if isinstance(n, int):
+            return n
+        from .engine import Unsupported
+
+        raise Unsupported("len() of a byte string of symbolic length reached native code")
+
+    def __bool__(self):
+        return _t(self.sym_len() > 0)
+
+    def norm(self):
+        if not self.segs:
+            return b"" if self.kind == "bytes" else (SymByteArray([]) if self.kind == "bytearray" else SymView(SymBytes([])))
+        if len(self.segs) == 1 and self.segs[0][0] == "lit":
+            if self.kind == "memoryview":
+                return SymView(SymBytes(self.segs[0][1]))
+            b = SymBytes(self.segs[0][1])
+            return b.norm() if self.kind != "bytearray" else SymByteArray(self.segs[0][1])
+        return self
+
+    # -- concatenation
+    def __add__(self, o):
+        if not (is_byteslike(o) or isinstance(o, SymBlob)):
+            return NotImplemented
+        return SymBlob(self.segs + SymBlob.of(o).segs, self.kind)
+
+    def __radd__(self, o):
+        if not (is_byteslike(o) or isinstance(o, SymBlob)):
+            return NotImplemented
+        return SymBlob(SymBlob.of(o).segs + self.segs, "bytes")
+
+    def __iadd__(self, o):
+        if self.kind != "bytearray":
+            return self.__add__(o)  # bytes are immutable: += rebinds
+        self.segs[:] = SymBlob(self.segs + SymBlob.of(o).segs).segs
+        return self
+
+    def tobytes(self):
+        return SymBlob(self.segs, "bytes")
+
+    def copy_as(self, kind):
+        return SymBlob([(("lit", list(s[1])) if s[0] == "lit" else s) for s in self.segs], kind)
+
+    # -- positions
+    def _split(self, pos):
+        """index i such that segments [0:i] have total length pos (splitting a segment if needed)"""
+        acc = 0
+        for i, s in enumerate(self.segs):
+            if _t(pos == acc):
+                return i
+            ln = self.seglen(s)
+            if _t(pos < acc + ln):
+                inner = pos - acc
+                if s[0] == "lit":
+                    k = inner if isinstance(inner, int) else _eng().concretize(inner)
+                    self.segs[i : i + 1] = [("lit", s[1][:k]), ("lit", s[1][k:])]
+                else:
+                    self.segs[i : i + 1] = [("opq", s[1], s[2], inner), ("opq", s[1], s[2] + inner, ln - inner)]
+                return i + 1
+            acc = acc + ln
+        return len(self.segs)
+
+    def _bounds(self, key):
+        total = self.sym_len()
+        start, stop = key.start, key.stop
+        if key.step not in (None, 1):
+            from .engine import Unsupported
+
+            raise Unsupported("extended slice of a byte string of symbolic length")
+        start = 0 if start is None else start
+        stop = total if stop is None else stop
+        if _t(start < 0):
+            start = start + total
+            if _t(start < 0):
+                start = 0
+        if _t(stop < 0):
+            stop = stop + total
+            if _t(stop < 0):
+                stop = 0
+        if _t(stop > total):
+            stop = total
+        if _t(start > stop):
+            start = stop
+        return start, stop
+
+    def __getitem__(self, key):
+        if isinstance(key, slice):
+            start, stop = self._bounds(key)
+            work = SymBlob([], self.kind)
+            work.segs = [(("lit", list(s[1])) if s[0] == "lit" else s) for s in self.segs]
+            i = work._split(start)
+            j = work._split(stop)  # stop >= start: cutting there leaves the segments before i untouched
+            return SymBlob(work.segs[i:j], self.kind).norm()
+        acc = 0
+        if isinstance(key, int) and key < 0:
+            key = self.sym_len() + key
+        for s in self.segs:
+            ln = self.seglen(s)
+            if _t(key < acc + ln):
+                if s[0] != "lit":
+                    from .engine import Unsupported
+
+                    raise Unsupported("content of an opaque byte string inspected")
+                k = key - acc
+                return s[1][k if isinstance(k, int) else _eng().concretize(k)]
+            acc = acc + ln
+        raise IndexError("index out of range")
+
+    def __setitem__(self, key, value):
+        if self.kind == "bytes":
+            raise TypeError("'bytes' object does not support item assignment")
+        vals = seq_items(value) if not isinstance(value, (int, SymInt)) else None
+        if isinstance(key, slice):
+            start, stop = self._bounds(key)
+            i = self._split(start)
+            j = self._split(stop)
+            if not isinstance(stop - start, int) or (stop - start) != len(vals):
+                if self.kind == "memoryview" or not _t((stop - start) == len(vals)):
+                    raise ValueError("memoryview assignment: lvalue and rvalue have different structures")
+            self.segs[i:j] = [("lit", list(vals))]
+            self.segs[:] = SymBlob(self.segs).segs  # in place: a memoryview shares the list with its bytearray
+            return
+        raise TypeError("item assignment on a byte string of symbolic length")
+
+    # -- equality: walk both segment lists, cutting at the shorter piece; zero-length pieces are skipped (decided by the solver)
+    def __eq__(self, o):
+        if not (is_byteslike(o) or isinstance(o, SymBlob)):
+            return False
+        from .engine import Unsupported
+
+        la, lb = self.sym_len(), SymBlob.of(o).sym_len()
+        r = la == lb
+        if r is False:
+            return False
+        conj = [] if r is True else [r.t]
+        a = [(("lit", list(s[1])) if s[0] == "lit" else s) for s in self.segs]
+        b = [(("lit", list(s[1])) if s[0] == "lit" else s) for s in SymBlob.of(o).segs]
+
+        def ln(s):
+            return len(s[1]) if s[0] == "lit" else s[3]
+
+        def cut(s, k):
+            if s[0] == "lit":
+                kk = k if isinstance(k, int) else _eng().concretize(k)
+                return ("lit", s[1][:kk]), ("lit", s[1][kk:])
+            return ("opq", s[1], s[2], k), ("opq", s[1], s[2] + k, s[3] - k)
+
+        if not (r is True) and not _t(r):
+            return False  # lengths differ on this path
+        i = j = 0
+        while i < len(a) and j < len(b):
+            x, y = a[i], b[j]
+            if _t(ln(x) == 0):
+                i += 1
+                continue
+            if _t(ln(y) == 0):
+                j += 1
+                continue
+            if _t(ln(x) == ln(y)):
+                i, j = i + 1, j + 1
+            elif _t(ln(x) < ln(y)):
+                y, rest = cut(y, ln(x))
+                b[j] = rest
+                i += 1
+            else:
+                x, rest = cut(x, ln(y))
+                a[i] = rest
+                j += 1
+            if x[0] == "lit" and y[0] == "lit":
+                e = SymBytes(x[1]) == SymBytes(y[1])
+            elif x[0] == "opq" and y[0] == "opq":
+                if x[1] != y[1]:
+                    return False
+                e = x[2] == y[2]
+            else:
+                raise Unsupported("an opaque byte string is compared with literal octets")
+            if e is False:
+                return False
+            if e is not True:
+                conj.append(e.t)
+        for s in a[i:] + b[j:]:
+            if not _t(ln(s) == 0):
+                return False
+        return True if not conj else mkbool(z3.And(*conj))
+
+    def __ne__(self, o):
+        r = self.__eq__(o)
+        return (not r) if isinstance(r, bool) else SymBool(z3.Not(r.t))
+
+    def __hash__(self):
+        from .engine import Unsupported
+
+        raise Unsupported("hash of a byte string of symbolic length")
+
+    def __repr__(self):
+        return "SymBlob(" + " ".join(f"lit[{len(s[1])}]" if s[0] == "lit" else f"opq:{s[1]}" for s in self.segs) + ")"
+
+
+def tobool_term(v):
+    return v.t if isinstance(v, SymBool) else z3.BoolVal(bool(v))
+
+
+def blen(x):
+    """length of any byte-string proxy: int or SymInt"""
+    return x.sym_len() if isinstance(x, SymBlob) else len(x)
